@@ -215,6 +215,18 @@ Proof.
   - exact (good_has_kings b G).
 Qed.
 
+
+(* make-move's `piece_of_unchecked(source)`: every move the checked operations let through has an own man on its source *)
+Theorem move_source_reachable : forall b m, Reachable b -> is_legal b m = true ->
+  m_src m < 64 /\ m_dst m < 64 /\ exists pc, raw_get b (m_src m) = Some (b_turn b, pc).
+Proof.
+  intros b m R L. pose proof (Reachable_Good b R) as G.
+  destruct (gen_move_ok b m (inv_part b (good_inv b G)) (Good_own_king b G) (legal_gen_move b m L)) as (pc & promo & MO).
+  split; [exact (mo_src _ _ _ _ MO)|split; [exact (mo_dst _ _ _ _ MO)|]].
+  exists pc. exact (mo_raw _ _ _ _ MO).
+Qed.
+Print Assumptions move_source_reachable.
+
 Print Assumptions capacity_reachable.
 Print Assumptions king_present_reachable.
 
